@@ -223,7 +223,7 @@ Example C12_replacement_example :
   snd (replace_failed_proxy ex_one 1 (Some 4)) = Fail E_BadChoice /\
   snd (replace_failed_proxy ex_one 1 (Some 2)) = Fail E_BadChoice.
 Proof.
-  split; [exists false, (ex_proxies ++ [OAddCluster 1 4 1 [(1, 3)]]); split; [repeat constructor|reflexivity]|].
+  split; [exists false, ex_one_ops; split; [repeat constructor|reflexivity]|].
   vm_compute. repeat split.
 Qed.
 
